@@ -129,5 +129,43 @@ func ctlFlagReduce(xs []int) bool {
 	return needs
 }
 
+// ---- narrowsucc: run detection with a 16-bit successor; the start sentinel
+// 0xFFFF makes glyph 0 look like a continuation.
+func ctlNarrowSucc(gids []uint16) int {
+	runs := 0
+	prev := uint16(0xFFFF)
+	for _, g := range gids {
+		if g != prev+1 {
+			runs++
+		}
+		prev = g
+	}
+	return runs
+}
+
+// the safe twins: widened before the addition; guarded below the maximum
+func ctlNarrowSuccWide(gids []uint16) int {
+	runs := 0
+	prev := 0xFFFF
+	for _, g := range gids {
+		if int(g) != prev+1 {
+			runs++
+		}
+		prev = int(g)
+	}
+	return runs
+}
+
+func ctlNarrowSuccGuard(a, b uint16) bool {
+	if a == 0xFFFF {
+		return false
+	}
+	return b == a+1
+}
+
 // CtlUse2 keeps further examples reachable.
-func CtlUse2(xs []int) bool { return ctlFlagReduce(xs) }
+func CtlUse2(xs []int) bool {
+	_ = ctlNarrowSucc(nil) + ctlNarrowSuccWide(nil)
+	_ = ctlNarrowSuccGuard(1, 2)
+	return ctlFlagReduce(xs)
+}
